@@ -496,7 +496,8 @@ def main(argv=None):
         except Exception:
             harness_errors.append("evidence_extra: " + traceback.format_exc())
     os.makedirs(os.path.join(VERIF, "evidence"), exist_ok=True)
-    partial = bool(args.part) or args.scale != 1 or bool(args.shards)
+    # evidence describes /repo itself: a run against a scratch copy (VERIF_REPO, used for sensitivity runs) never rewrites it
+    partial = bool(args.part) or args.scale != 1 or bool(args.shards) or os.path.realpath(tree.REPO) != "/repo"
     evname = f".partial-{prop}.json" if partial else f"{prop}.json"  # only full runs rewrite the real evidence
     with open(os.path.join(VERIF, "evidence", evname), "w") as f:
         json.dump(ev, f, indent=1, sort_keys=True, default=repr)
